@@ -3,7 +3,7 @@
    adds to the block graph, and the part of the pipeline for which comment ops are provably inert. *)
 From Coq Require Import List Arith NArith Ascii String Bool Lia.
 From PV Require Import Base.Bytes Base.Sexp AVM.Syntax AVM.Machine AVM.Parse Src.Expr Comp.Blocks Comp.Lower Comp.Passes
-  Comp.Assemble Comp.Compile Comp.Annotate Extract.WireExpr Proofs.C18Sem.
+  Comp.Assemble Comp.Compile Comp.Annotate Extract.WireExpr Proofs.C18Sem Proofs.C18Commute.
 Import ListNotations.
 Local Open Scope string_scope.
 
@@ -131,3 +131,24 @@ Proof.
   destruct (lower o c e k g) as [[s en] g1]. cbn [or_some or_else].
   unfold I. reflexivity.
 Qed.
+
+(* ---- the partial invariance theorem of Proofs/C18Commute.v is not vacuous, and its side condition is
+   exactly what witness (A) violates ---- *)
+Definition lowered (e : expr) : graph * id * id :=
+  let '((s, en), g) := lower (opts 6 false) (mkL None None None main_param) e None empty_graph in
+  let '(g1, _) := add_incoming g s in (g1, s, en).
+
+Definition ex_clean_prog : expr :=
+  ESeq [annot_comment "note" pop1; EIf fee_lt_3 (annot_comment "why" pop1) None;
+        EWhile fee_lt_3 (ESeq [annot_comment0 "body"; pop1]); approve].
+
+Lemma ex_clean :
+  let '(g, s, en) := lowered ex_clean_prog in
+  normalize_clean g s = true /\
+  routine_code (strip_graph g) s en = option_map strip_comps (routine_code g s en) /\
+  option_map (fun l => Nat.leb 12 (List.length l)) (routine_code g s en) = Some true.
+Proof. vm_compute. repeat split; reflexivity. Qed.
+
+Lemma wA_side_condition_fails :
+  let '(g, s, _) := lowered (p_main wA_annot) in normalize_clean g s = false.
+Proof. vm_compute. reflexivity. Qed.
